@@ -374,7 +374,12 @@ ConvRootOwed(a, b) ==
     \cup (IF a = b \/ SupportsSkybox(b) THEN {"skybox"} ELSE {})
     \cup (IF a >= VMop /\ b < VMop THEN {"materials_noshadow"} ELSE {"materials"})
     \cup {"header"}
+\*   ghdr (group)      the projection keeps every flag bit the TARGET version defines: MOUNT_ALLOWED is defined from Legion
+\*                     (never in Classic..MoP: "ghdr_nomount"); HAS_MORE_MOTION_TYPES / USE_SCENE_GRAPH / EXTERIOR_BSP are
+\*                     defined from Cataclysm (target < Cataclysm: "ghdr_base" projects all four away)
+\*   liquid            the MLIQ layout is the same in Classic..MoP (LiquidV2 starts with WoD): owed in full, every flag bit
 ConvGroupOwed(a, b) ==
     (GroupSections \ {"ghdr", "liquid"})
-    \cup (IF a = b THEN {"ghdr", "liquid"} ELSE {"ghdr_base", "liquid"})
+    \cup (IF a = b THEN {"ghdr", "liquid"}
+          ELSE IF b >= VCata THEN {"ghdr_nomount", "liquid"} ELSE {"ghdr_base", "liquid"})
 =============================================================================
